@@ -390,8 +390,11 @@ func RunChild(chk *Check, tier, build string, seed uint64, shard, shards, from, 
 		r.res.Evaluations++
 		r.res.LastCase = i
 		if c.sig != "" {
-			if len(r.res.Sigs) < 2000000 || r.res.Sigs[c.sig] > 0 {
-				r.res.Sigs[c.sig]++
+			// signatures are stored as 40-bit hashes; beyond 400k distinct ones per child further new signatures
+			// are not counted (distinct_nontrivial is then a lower bound)
+			h := fmt.Sprintf("%010x", HashString(c.sig)&0xffffffffff)
+			if len(r.res.Sigs) < 400000 || r.res.Sigs[h] > 0 {
+				r.res.Sigs[h]++
 			}
 		}
 		if len(r.res.Samples) < 2 && shard == 0 && (c.sig != "" || only >= 0) {
